@@ -57,9 +57,26 @@ int main(int argc, char **argv)
         return 0;
     }
     bool strict = std::string(argv[2]) == "strict";
+    bool mathapi = std::string(argv[2]) == "mathapi";
     stage("parse");
     auto parser = Parser::create(strict);
-    auto model = parser->parseModel(b.str());
+    ModelPtr model;
+    if (mathapi) {
+        // the input is a math string handed to the object model through the API (Component::setMath, Reset::setTestValue /
+        // setResetValue), not a document
+        model = Model::create("m");
+        auto c = Component::create("c");
+        auto x = Variable::create("x"); x->setUnits("dimensionless");
+        auto y = Variable::create("y"); y->setUnits("dimensionless");
+        c->addVariable(x); c->addVariable(y);
+        c->setMath(b.str());
+        auto r = Reset::create(); r->setVariable(x); r->setTestVariable(y); r->setOrder(1);
+        r->setTestValue(b.str()); r->setResetValue(b.str());
+        c->addReset(r);
+        model->addComponent(c);
+    } else {
+        model = parser->parseModel(b.str());
+    }
     std::cout << "issues " << parser->issueCount() << std::endl;
     if (model == nullptr) { stage("done"); return 0; }
     stage("validate");
